@@ -10,7 +10,8 @@ O: the property itself on four streams (arbitrary bytes and mutated fixture / ge
    is not DSL; the generated DSL; generated file structures: equal-named / blank / method rule groups, local helpers of every
    signature and body shape, custom filter functions with native calls of many arguments): no panic, no fatal runtime error
    (stack overflow: every Load runs in a child process with a capped stack, the death of the child is attributed to the
-   announced input), no hang (5 s), every error names rules.go:<line>, no report with a nil node from an accepted rule.
+   announced input), no hang (5 s), every error names rules.go:<line> and that line is a line of the source (the same file with 3
+   blank lines inserted after line 1 must give the same error 3 lines further down), no report with a nil node from an accepted rule.
 """
 import json
 import os
@@ -135,6 +136,9 @@ def run(c):
             elif o["kind"] == "error" and not o["located"]:
                 c.fail("oracle", "Load error does not name the file and line", input=inp, observed=o.get("err"),
                        expected="an error mentioning rules.go:<line>")
+            if x.get("shift"):
+                c.fail("oracle", "the line a Load error names is not a line of the rules file: it does not move when blank lines are inserted above it",
+                       input=inp, observed=x["shift"], expected="the same error, 3 lines further down")
             if x.get("nil_reports"):
                 c.fail("oracle", "an accepted rule produces a report with a nil node", input=inp, observed=x["nil_reports"], expected=0)
             if x["stream"] == "dsl" and x.get("rule"):
@@ -167,7 +171,7 @@ def run(c):
         for k in range(4):
             judge(observe(c.seed * 31 + k, 4000, 3000, 2500), "t%d" % k)
     else:
-        judge(observe(c.seed, 400, 800, 300), "main")
+        judge(observe(c.seed, 300, 700, 220), "main")
 
     def search():
         for k in range(1, 4):
